@@ -19,6 +19,9 @@ LEAN = os.path.join(VERIF, "lean")
 HARNESS = os.path.join(VERIF, "harness")
 NCPU = os.cpu_count() or 4
 GUARD = "SOXR_VERIF"
+# evidence/ and replays/ normally live in /verif; mutation runs (bin/seedtest) redirect them so that nothing they write is
+# mistaken for evidence about /repo
+OUTDIR = os.environ.get("VERIF_OUT", VERIF)
 REPO_TAG = hashlib.sha256(os.path.realpath(REPO).encode()).hexdigest()[:6]
 
 # The configuration the repository's own build uses here (soxr-config.h as cmake writes it for this image).
@@ -360,11 +363,11 @@ class Ctx:
 
     def violation(self, what, replay, no_input=False):
         """Record a violation; `replay` is a JSON-serialisable description written to /verif/replays."""
-        os.makedirs(os.path.join(VERIF, "replays"), exist_ok=True)
+        os.makedirs(os.path.join(OUTDIR, "replays"), exist_ok=True)
         body = json.dumps({"property": self.pid, "what": what, "replay": replay, "seed": self.seed, "tier": self.tier},
                           indent=1, sort_keys=True, default=str)
         h = hashlib.sha256(body.encode()).hexdigest()[:10]
-        path = os.path.join(VERIF, "replays", "%s-%s.json" % (self.pid, h))
+        path = os.path.join(OUTDIR, "replays", "%s-%s.json" % (self.pid, h))
         open(path, "w").write(body + "\n")
         self.violations.append((what, path, no_input))
         return path
@@ -378,14 +381,15 @@ class Ctx:
             ev["coverage"]["notes"] = self.notes
         if self.known_hits:
             ev["coverage"]["known_findings_hit"] = self.known_hits
-        os.makedirs(os.path.join(VERIF, "evidence"), exist_ok=True)
-        tmp = os.path.join(VERIF, "evidence", self.pid + ".json.tmp")
+        os.makedirs(os.path.join(OUTDIR, "evidence"), exist_ok=True)
+        tmp = os.path.join(OUTDIR, "evidence", self.pid + ".json.tmp")
         json.dump(ev, open(tmp, "w"), indent=1, sort_keys=True, default=str)
-        os.rename(tmp, os.path.join(VERIF, "evidence", self.pid + ".json"))
+        os.rename(tmp, os.path.join(OUTDIR, "evidence", self.pid + ".json"))
         for fid, text in sorted(self.known_hits.items()):
             print("KNOWN-FINDING: property=%s %s %s" % (self.pid, fid, text))
         seen = set()
-        for what, path, no_input in self.violations:
+        # violations with a concrete failing input first
+        for what, path, no_input in sorted(self.violations, key=lambda v: v[2]):
             if path in seen:
                 continue
             seen.add(path)
